@@ -136,6 +136,59 @@ ob("c09::to_primitive_routes", "C09", cls="miter", timeout=900, functions=["ToPr
 ob("c09::from_primitive_routes", "C09", cls="miter", timeout=300, functions=["FromPrimitive for TwoFloat"])
 ob("c09::numcast_i64_exact", "C09", timeout=600, functions=["NumCast for TwoFloat"])
 
+# ------------------------------------------------------------------ C10
+_C10 = ['forms_add_tf_f64_h', 'forms_add_f64_tf_h', 'forms_add_tf_tf_h', 'forms_sub_tf_f64_h', 'forms_sub_f64_tf_h', 'forms_sub_tf_tf_h', 'forms_mul_tf_f64_h', 'forms_mul_f64_tf_h', 'forms_mul_tf_tf_h', 'forms_div_tf_f64_h', 'forms_div_f64_tf_h', 'forms_div_tf_tf_h', 'forms_rem_tf_f64_h', 'forms_rem_f64_tf_h', 'forms_rem_tf_tf_h', 'neg_forms', 'commute_tf_f64', 'sub_is_add_neg_tf_tf', 'sub_is_add_neg_tf_f64', 'add_commutes_tf_tf', 'mul_sign_symmetry', 'sum_is_left_fold', 'deleg_float_exp', 'deleg_float_exp2', 'deleg_float_exp_m1', 'deleg_float_ln', 'deleg_float_ln_1p', 'deleg_float_log2', 'deleg_float_log10', 'deleg_float_sqrt', 'deleg_float_cbrt', 'deleg_float_sin', 'deleg_float_cos', 'deleg_float_tan', 'deleg_float_asin', 'deleg_float_acos', 'deleg_float_atan', 'deleg_float_sinh', 'deleg_float_cosh', 'deleg_float_tanh', 'deleg_float_asinh', 'deleg_float_acosh', 'deleg_float_atanh', 'deleg_float_powf', 'deleg_float_log', 'deleg_float_hypot', 'deleg_float_atan2', 'deleg_float_sin_cos', 'deleg_powi', 'deleg_recip_inv', 'deleg_pow_i8', 'deleg_pow_i16', 'deleg_pow_u8', 'deleg_pow_u16', 'deleg_pow_tf', 'deleg_pow_f64', 'deleg_float_floor', 'deleg_float_ceil', 'deleg_float_round', 'deleg_float_trunc', 'deleg_float_fract', 'deleg_float_to_degrees', 'deleg_float_to_radians', 'deleg_sign_minmax', 'deleg_mul_add_abs_sub', 'deleg_constants']
+_C10_THOROUGH = {"sub_is_add_neg_tf_tf", "sub_is_add_neg_tf_f64", "add_commutes_tf_tf", "mul_sign_symmetry", "sum_is_left_fold"}
+for _n in _C10:
+    _cls = "miter"
+    _be = "cbmc+cvc5" if (_n.startswith("forms_") and "rem" not in _n) or _n in ("neg_forms", "commute_tf_f64", "deleg_mul_add_abs_sub") or _n in _C10_THOROUGH else "cbmc+kissat"
+    if _n in _C10_THOROUGH:
+        continue  # identities that do not close (cvc5 900 s time-out, CBMC status 6 on the iterator fold): not registered, listed as undecided clauses
+    ob("c10::" + _n, "C10", cls=_cls, timeout=900 if _n.startswith("forms_") or _n == "deleg_mul_add_abs_sub" else 300, backend=_be,
+       functions=["operator forms / num_traits delegation: " + _n])
+
+# ------------------------------------------------------------------ C12
+ob("c12::consts_correctly_rounded", "C12", cls="ground", timeout=300, functions=["twofloat::consts::* (19 constants)"])
+ob("c12::reference_words_valid", "C12", cls="ground", timeout=300)
+ob("c12::associated_constants", "C12", cls="ground", timeout=300, functions=["TwoFloat::{MAX,MIN,MIN_POSITIVE,NAN,INFINITY,NEG_INFINITY}"])
+ob("c12::max_min_extremal", "C12", cls="leaf", timeout=300, functions=["TwoFloat::MAX", "TwoFloat::MIN"])
+ob("c12::angle_factors_correctly_rounded", "C12", cls="ground", timeout=600, native=True, functions=["TwoFloat::to_degrees", "TwoFloat::to_radians"])
+ob("c12::angle_conversions_are_products", "C12", cls="miter", timeout=600, backend="cbmc+cvc5", functions=["TwoFloat::to_degrees", "TwoFloat::to_radians"])
+
+# ------------------------------------------------------------------ C14
+ob("c14::nopanic::exp_no_panic", "C14", checks="default", timeout=1800, functions=["TwoFloat::exp", "TwoFloat::expm1_quarter (private)", "explog::expm1_128th (private)", "explog::exp_half (private)"])
+ob("c14::nopanic::exp2_no_panic", "C14", checks="default", timeout=1200, functions=["TwoFloat::exp2", "explog::mul_pow2 (private)"])
+ob("c14::nopanic::exp_m1_powf_no_panic", "C14", checks="default", timeout=600, functions=["TwoFloat::exp_m1", "TwoFloat::powf"])
+ob("c14::nopanic::exp_range_rules", "C14", checks="default", timeout=900, functions=["TwoFloat::exp", "TwoFloat::exp2"])
+ob("c14::nopanic::powf_case_table", "C14", checks="default", timeout=600, functions=["TwoFloat::powf"])
+ob("c14::exact_points", "C14", cls="ground", native=True, functions=["TwoFloat::exp", "TwoFloat::exp_m1", "TwoFloat::powf"])
+ob("c14::exp2_integers", "C14", cls="ground", native=True, functions=["TwoFloat::exp2"])
+ob("c14::powf_parity", "C14", cls="ground", native=True, functions=["TwoFloat::powf"])
+ob("c14::exp_reduction_boundaries", "C14", cls="ground", native=True, functions=["TwoFloat::exp"])
+
+# ------------------------------------------------------------------ C13
+ob("c13::solver::powi_no_panic", "C13", checks="default", timeout=900, functions=["TwoFloat::powi"])
+ob("c13::solver::powi_zero_one", "C13", checks="default", timeout=600, functions=["TwoFloat::powi"])
+ob("c13::solver::sqrt_domain", "C13", checks="default", timeout=600, functions=["TwoFloat::sqrt"])
+ob("c13::solver::roots_no_panic", "C13", checks="default", timeout=600, functions=["TwoFloat::sqrt", "TwoFloat::cbrt", "TwoFloat::hypot"])
+ob("c13::powi_neg_is_recip_small", "C13", cls="bounded", timeout=900, backend="cbmc+cvc5", functions=["TwoFloat::powi"], bound={"exponent": "0 < n <= 7", "operands": "all word patterns"})
+ob("c13::exact_points", "C13", cls="ground", native=True, functions=["TwoFloat::sqrt", "TwoFloat::cbrt", "TwoFloat::powi"])
+
+# ------------------------------------------------------------------ C15
+ob("c15::solver::logs_no_panic", "C15", checks="default", timeout=900, functions=["TwoFloat::ln", "TwoFloat::log2", "TwoFloat::log10", "TwoFloat::ln_1p", "TwoFloat::log"])
+ob("c15::solver::logs_domain", "C15", checks="default", timeout=900, functions=["TwoFloat::ln", "TwoFloat::log2", "TwoFloat::ln_1p"])
+ob("c15::log10_is_quotient", "C15", cls="miter", timeout=600, backend="cbmc+cvc5", functions=["TwoFloat::log10"])
+ob("c15::exact_points", "C15", cls="ground", native=True, functions=["TwoFloat::ln", "TwoFloat::log2", "TwoFloat::log10", "TwoFloat::ln_1p", "TwoFloat::log"])
+ob("c15::log2_powers_of_two", "C15", cls="ground", native=True, functions=["TwoFloat::log2"])
+
+# ------------------------------------------------------------------ C16, C17, C18
+ob("c16::solver::trig_invalid_and_total", "C16", checks="default", timeout=900, functions=["TwoFloat::sin", "TwoFloat::cos", "TwoFloat::tan", "TwoFloat::sin_cos", "trigonometry::quadrant (private)"])
+ob("c16::sin_cos_consistent", "C16", cls="miter", timeout=600, functions=["TwoFloat::sin_cos", "TwoFloat::sin", "TwoFloat::cos"])
+ob("c16::exact_points", ["C16", "C17", "C18"], cls="ground", native=True, functions=["sin cos tan sin_cos asin acos atan atan2 sinh cosh tanh asinh acosh atanh (exact points)"])
+ob("c16::solver::inverse_trig_domain", "C17", checks="default", timeout=900, functions=["TwoFloat::asin", "TwoFloat::acos", "TwoFloat::atan", "TwoFloat::atan2"])
+ob("c16::solver::atan2_axes", "C17", checks="default", timeout=900, functions=["TwoFloat::atan2"])
+ob("c16::solver::hyperbolic_total", "C18", checks="default", timeout=900, functions=["TwoFloat::sinh", "TwoFloat::cosh", "TwoFloat::tanh", "TwoFloat::asinh", "TwoFloat::acosh", "TwoFloat::atanh"])
+
 COMMON_ASSUMPTIONS = [
     "Kani/CBMC bit-precise model of IEEE-754 binary64 (+,-,*,/,fma,casts,comparisons) equals the target's; one NaN (payload/sign of NaN not modelled)",
     "solver soundness (kissat, cadical, cvc5)",
@@ -156,7 +209,7 @@ def select(prop, tier, seed=0):
     """obligations run by `check <prop> --tier <tier>`: the rows owned by the property (first entry of
     props).  Rows that merely serve the property are discharged by their owner's check and are listed
     in the evidence under `rests_on`."""
-    rows = [o for o in ALL if o["props"][0] == prop and (tier == "thorough" or o["tier"] == "quick")]
+    rows = [o for o in ALL if (o["props"][0] == prop or (o.get("native") and prop in o["props"])) and (tier == "thorough" or o["tier"] == "quick")]
     if tier == "quick":
         # seeded sample of the per-gap leaf obligations: 2 per family among those measured <= 160 s
         rng = random.Random(seed)
